@@ -213,6 +213,31 @@ def counting(ctx):
 
 def swaps(ctx):
     f = ctx.func(CP + "_numSwapsTree")
+    # the merger the caller configured is the one every level is costed with:
+    # the recursion hands down its own `radix` / `next_latency` parameters,
+    # not a value clamped to the width of an upper-rank fiber
+    rec = [c for c in f.own_nodes() if isinstance(c, ast.Call)
+           and text(c.func).endswith("_numSwapsTree")]
+    for c in rec:
+        for prm in ("radix", "next_latency"):
+            if prm not in f.params:
+                continue
+            a = pat.kwarg(c, prm, f.params.index(prm))
+            okp = False
+            if isinstance(a, ast.Name) and a.id == prm:
+                facts, is_param = ctx.ty.facts_at(f, prm, a)
+                okp = is_param and not facts
+            if okp:
+                ctx.ok("C19.R2", f, c, "recursion passes the caller's %s unchanged" % prm,
+                       text_="_numSwapsTree hands down %s" % prm)
+            else:
+                ctx.bad("C19.R2", f, c, "the recursion of _numSwapsTree does not "
+                        "hand down the caller's `%s` unchanged (`%s`, rebound on a "
+                        "path to the call): lower ranks are costed with a merger "
+                        "clamped to the number of coordinates of an upper-rank "
+                        "fiber, i.e. with extra merge rounds"
+                        % (prm, text(a) if a is not None else "missing"),
+                        text_="_numSwapsTree hands down %s" % prm)
     bad = []
     for lp in f.own_nodes():
         if isinstance(lp, ast.For) and isinstance(lp.target, ast.Tuple) and \
